@@ -73,7 +73,10 @@ Definition api_obs := (name * version * list name)%type.
 (* one observation point of a history that is observed several times (seeded round 4): the commands run since the
    previous point, whether the session goes on with the LOADED object, and the same observations as for CHist *)
 Record seg := mkSeg { sg_cmds : list jcmd; sg_reload : bool; sg_before : ores; sg_after : ores;
-                      sg_own1 : owner_obs; sg_own2 : owner_obs; sg_api2 : option api_obs }.
+                      sg_own1 : owner_obs; sg_own2 : owner_obs; sg_api2 : option api_obs;
+                      (* the Extension OBJECT (built / loaded) read through its public attributes and put into the
+                         shape of a document by the harness, before anything is written at this point *)
+                      sg_view1 : ores; sg_view2 : ores }.
 
 Inductive case :=
 (* an extension built through the public API, serialised, loaded back, serialised again *)
@@ -237,6 +240,8 @@ Definition corr (c : case) : bool :=
   | CHist n v reqs cmds before after own1 own2 api2 => corr_hist n v reqs cmds before after own1 own2 api2
   | CSeq n v reqs segs =>
       seq_all (fun cs s => corr_hist n v reqs cs (sg_before s) (sg_after s) (sg_own1 s) (sg_own2 s) (sg_api2 s)) [] segs &&
+      (* the objects themselves against the model (same judgement, object views in place of the documents) *)
+      seq_all (fun cs s => corr_hist n v reqs cs (sg_view1 s) (sg_view2 s) (sg_own1 s) (sg_own2 s) (sg_api2 s)) [] segs &&
       (if nodupb same_slot (flat_map sg_cmds segs)
        then all2 ores_eqb (map sg_before segs) (m_session n v reqs segs) else true)
   | CShared hdrs objs prog obs =>
@@ -317,6 +322,8 @@ Definition doc_kept (a b : jext) : bool :=
               json_eqb (sv_typed_value (snd x)) (sv_typed_value (snd y))) (se_values a) (se_values b) &&
   perm_eqb (fun x y : name * sopdef json json =>
               N.eqb (fst x) (fst y) && op_kept (se_name a) (snd x) (snd y)) (se_ops a) (se_ops b).
+Definition ores_view (doc view : ores) : bool :=
+  match doc, view with OOk x, OOk y => doc_corr x y | _, _ => false end.
 Definition mon_hist (n : name) (v : version) (reqs : list name) (cmds : list jcmd)
                     (before after : ores) (own1 own2 : owner_obs) (api2 : option api_obs) : bool :=
   ores_same before after && ores_owner before &&
@@ -334,7 +341,10 @@ Definition mon (c : case) : bool :=
   (* the document written at a point -- whatever was written or loaded before on the same object -- shows
      exactly the definitions added up to that point, loads back, is written again unchanged, names the owner *)
   | CSeq n v reqs segs =>
-      seq_all (fun cs s => mon_hist n v reqs cs (sg_before s) (sg_after s) (sg_own1 s) (sg_own2 s) (sg_api2 s)) [] segs
+      seq_all (fun cs s => mon_hist n v reqs cs (sg_before s) (sg_after s) (sg_own1 s) (sg_own2 s) (sg_api2 s) &&
+                           (* "serializing an extension": the document is the document OF THE OBJECT as it is now
+                              (not one it wrote earlier), and what is loaded back shows what its document says *)
+                           ores_view (sg_before s) (sg_view1 s) && ores_view (sg_after s) (sg_view2 s)) [] segs
   | CShared hdrs objs prog obs =>
       Nat.eqb (length obs) (length hdrs) &&
       forallb (fun oh : (ores * ores * owner_obs) * (name * version * list name) =>
